@@ -3,6 +3,7 @@ import OFCore.RuleSys
 import OFCore.PeriodSpec
 import OFCore.Lemmas.RuleSysCoherent
 import OFCore.Lemmas.EngineTotal
+import OFCore.Lemmas.EngineAdd
 /-!
 # C01 — a calculated value equals the rule system's meaning on the given inputs
 
@@ -260,10 +261,60 @@ theorem C01_self_cycle_refused (sys : Sys P) (n : Nat) (v : Nat) (p : P) (hin : 
   have hne : sys.msl ≠ 0 := by omega
   simp [purge, hne]
 
+/-- The ADD option.  `population(w, q, options=[ADD])` (and `calculate_add`) means the sum, in
+    order, of the meanings of `w` over the pieces `q.get_subperiods(w.definition_period)`:
+    whenever the guards pass (definition period not heavier than the requested one, neither side
+    eternal) and every piece is a definition-period-long period with a value, the read has the
+    element-wise sum of those values.  (That the pieces of an aligned same-family period are
+    such periods and tile `q` exactly is `C04_subperiods_tile`.) -/
+theorem C01_add_is_sum (d : Decl) (armed : List Nat) (n w : Nat) (wv : Var) (q s : Period) (ss : List Period)
+    (val : Period → Val) (hw : d.vars[w]? = some wv)
+    (hwt : ¬ unitWeight wv.unit > unitWeight q.unit) (hne : wv.unit ≠ .eternity) (hq : q.unit ≠ .eternity)
+    (hsub : q.subperiods wv.unit = .ok (s :: ss))
+    (hunit : ∀ t ∈ s :: ss, t.unit = wv.unit ∧ t.size = 1)
+    (hval : ∀ t ∈ s :: ss, den (elabSys d armed) n w t = some (.ok (val t))) :
+    denE (elabSys d armed) n (elabRead d w (.ok q) true)
+      = some (.ok (ss.foldl (fun acc t => vecAdd acc (val t)) (val s))) := by
+  have hserved : ∀ t ∈ s :: ss, servedPeriod wv.unit t = .ok t := by
+    intro t ht
+    obtain ⟨h1, h2⟩ := hunit t ht
+    simp [servedPeriod, hne, h1, h2]
+  have hf2 : ∀ a b, (elabSys d armed).f2 0 a b = vecAdd a b := by
+    intro a b; simp [elabSys, f2, vecAdd]
+  have hfold : ss.foldl (fun acc t => vecAdd acc (val t)) (val s)
+      = ss.foldl (fun acc t => (elabSys d armed).f2 0 acc (val t)) (val s) := by simp [hf2]
+  unfold elabRead
+  simp only [hw, hwt, hne, hq, hsub, if_true, if_false]
+  rw [hfold]
+  apply denE_foldl_op2 (elabSys d armed) n 0 _ val ss
+  · rw [hserved s (by simp)]
+    simpa [denE] using hval s (by simp)
+  · intro t ht
+    rw [hserved t (by simp [ht])]
+    simpa [denE] using hval t (by simp [ht])
+
+/-- a monthly variable with inputs 10 and 20 summed over a two-month period: the hypotheses of
+    `C01_add_is_sum` are met and the read means 30 -/
+def addDemo : Decl :=
+  { nP := 1, nG := 1, mem := [0], msl := 1,
+    vars := [⟨0, .int, .month, 7, false, none, false, []⟩],
+    inputs := [(0, ⟨.month, ⟨2018, 1, 1⟩, 1⟩, [10]), (0, ⟨.month, ⟨2018, 2, 1⟩, 1⟩, [20])] }
+
+example : denE (elabSys addDemo []) 3 (elabRead addDemo 0 (.ok ⟨.month, ⟨2018, 1, 1⟩, 2⟩) true) = some (.ok [30]) := by
+  have h := C01_add_is_sum addDemo [] 3 0 ⟨0, .int, .month, 7, false, none, false, []⟩
+    ⟨.month, ⟨2018, 1, 1⟩, 2⟩ ⟨.month, ⟨2018, 1, 1⟩, 1⟩ [⟨.month, ⟨2018, 2, 1⟩, 1⟩]
+    (fun t => if t.start.m = 1 then [10] else [20]) rfl (by decide) (by decide) (by decide) (by decide)
+    (by intro t ht; simp at ht; rcases ht with rfl | rfl <;> exact ⟨rfl, rfl⟩)
+    (by
+      intro t ht; simp at ht
+      rcases ht with rfl | rfl <;>
+        simp [den, elabSys, addDemo, inputLookup, storageKey])
+  simpa [vecAdd] using h
+
 example : ∃ x, den (elabSys ⟨1, 1, [0], 1,
     [⟨0, .int, .month, 7, false, none, false, []⟩,
      ⟨0, .int, .month, 0, false, none, false, [(1, .op2 0 (.var 0 .same false) (.const 1))]⟩],
-    [(0, ⟨.month, ⟨2018, 1, 1⟩, 1⟩, [10])]⟩ []) 5 1 ⟨.month, ⟨2018, 1, 1⟩, 1⟩ = some (.ok x) ∧ x = [11] := by
+    [(0, ⟨.month, ⟨2018, 1, 1⟩, 1⟩, [10])], []⟩ []) 5 1 ⟨.month, ⟨2018, 1, 1⟩, 1⟩ = some (.ok x) ∧ x = [11] := by
   refine ⟨_, ?_, rfl⟩
   simp [den, denE, elabSys, formulaInForce, pickFormula, pickStep, elabExpr, elabRead, applyPT, servedPeriod,
     inputLookup, startOrdOf, storageKey, Decl.size, f2, castTo, ord, dby, dbm, isLeap, Int.max_def]
